@@ -490,6 +490,8 @@ def fixed(chk, repo):
     gt, st = d.methods.get("__get__"), d.methods.get("__set__")
     from .c02 import hash_reads
     hash_reads(chk, repo, "R09.6")
+    from .c02 import hash_writes
+    hash_writes(chk, repo, "R09.6")
     si = [s for s in walk_no_nested(st) if isinstance(s, ast.If) and match(
         "self.fmt == 'x'", s.test) is not None] if st else []
     ok = len(si) == 1 and bool(find(
